@@ -148,3 +148,41 @@ def run(ctx):
         m.rel,
         ao.lineno,
     )
+
+    # ---- C38.6 cache options manufactured for _subrun_root_task respect what the caller exports ----
+    # subrun turns its cache options into explicit call-time options of _subrun_root_task; call-time options outrank the options exported by the
+    # calling job.  A value taken from subrun's own definition-time default must therefore be looked up *below* parent_job.get_export_options().
+    r6 = ctx.rule("C38.6", "subrun's own cache-option defaults rank below the options exported by the calling job", floor=2)
+    ao = next((n for n in ast.walk(sr) if isinstance(n, (ast.Assign, ast.AnnAssign)) and src(n.targets[0] if isinstance(n, ast.Assign) else n.target) == "all_options" and isinstance(n.value, ast.Dict)), None)
+    if ao is None:
+        raise AnalysisError("subrun: `all_options = {...}` not found", "subrun")
+    locals_ = {src(a.targets[0]): a.value for a in ast.walk(sr) if isinstance(a, ast.Assign) and len(a.targets) == 1 and isinstance(a.targets[0], ast.Name)}
+    nopt = 0
+    for k, v in zip(ao.value.keys, ao.value.values):
+        key = const_str(k)
+        if key not in ("cache_scope", "check_valid"):
+            continue
+        nopt += 1
+        layers = None
+        for x in ast.walk(v):
+            if isinstance(x, ast.Name) and isinstance(locals_.get(x.id), ast.Dict) and all(kk is None for kk in locals_[x.id].keys):
+                layers = [src(e) for e in locals_[x.id].values]
+        text = src(v)
+        uses_default = "subrun.get_task_option" in text or (layers is not None and any("subrun.get_task_option" in e for e in layers))
+        ok = True
+        if uses_default:
+            if layers is None:
+                ok = "get_export_options()" in text and text.index("get_export_options()") < text.index("subrun.get_task_option")
+            else:
+                idx = {name: next((i for i, e in enumerate(layers) if name in e), None) for name in ("subrun.get_task_option", "get_export_options()", "sexpr._options")}
+                ok = idx["get_export_options()"] is not None and idx["subrun.get_task_option"] < idx["get_export_options()"] and (idx["sexpr._options"] is None or idx["get_export_options()"] < idx["sexpr._options"])
+        r6.check(
+            ok,
+            f"{m.rel}:subrun:{key}:default-below-exports",
+            f"subrun passes `{key}` = `{text[:80]}` to _subrun_root_task as a call-time option; its own definition-time default is used whenever the subrun expression carries no `{key}`, and as a "
+            "call-time option it outranks what the calling job exports: under parent.export_options(cache=False) a sub-workflow is answered from the cache while the same expression evaluated directly re-runs",
+            m.rel,
+            v.lineno,
+        )
+    if nopt < 2:
+        raise AnalysisError("subrun: all_options no longer sets cache_scope and check_valid", "subrun")
